@@ -127,7 +127,7 @@ def build(spec, fault=None):
         if fault is not None and k in fault:
             return _faulty(fault[k], mode, x)
         ys = spec.get("yscale", 1.0)
-        y = ys * clean(x)
+        y = ys * clean(x) + spec.get("yoffset", 0.0)
         if mode != "det":
             y = y + ys * noise * float(np.random.randn())
         calls["ys"].append(y)
@@ -188,6 +188,12 @@ def _faulty(kind, mode, x):
         return (v, sd) if he else v
     if kind == "raise":
         raise InjectedFault("injected target failure")
+    if kind == "raise_noargs":
+        raise InjectedFault
+    if kind == "raise_assert":
+        assert False
+    if kind == "raise_keyerror":
+        raise KeyError("missing-key")
     if kind == "nan":
         return wrap(float("nan"))
     if kind == "posinf":
@@ -231,4 +237,19 @@ def small_options(rng, D, mode, quick=True):
         o["accelerate_mesh"] = False
     if mode != "det" and rng.random() < 0.6:
         o["noise_final_samples"] = rng.choice([0, 1, 3, 5])
+    # advanced options that the defaults never exercise (each leaves every property intact)
+    if rng.random() < 0.3:
+        o["cache_size"] = rng.choice([6, 15, 30])           # forces repeated growth of the evaluation log within a short run
+    if rng.random() < 0.12:
+        o["force_poll_mesh"] = True
+    if rng.random() < 0.12:
+        o["search_n_try"] = rng.choice([0, 1, 2])
+    if rng.random() < 0.12:
+        o["nonlinear_scaling"] = False
+    if rng.random() < 0.12:
+        o["gp_warnings"] = True
+    if rng.random() < 0.1:
+        o["search_grid_number"] = rng.choice([3, 5])
+    if rng.random() < 0.1:
+        o["fun_eval_start"] = rng.choice([1, 2 * D + 1, 16])
     return o
